@@ -6,6 +6,7 @@ import (
 	"crypto"
 	"crypto/ecdsa"
 	"crypto/ed25519"
+	"crypto/elliptic"
 	"crypto/rand"
 	"crypto/rsa"
 	"crypto/x509/pkix"
@@ -116,6 +117,12 @@ func (ca *CA) Issue(o LeafOpt) *Leaf {
 			panic(err)
 		}
 		pub, priv = &k.PublicKey, k
+	case "p256":
+		k, err := ecdsa.GenerateKey(elliptic.P256(), rand.Reader)
+		if err != nil {
+			panic(err)
+		}
+		pub, priv = &k.PublicKey, k
 	case "ed25519":
 		p, k, err := ed25519.GenerateKey(pkiRand)
 		if err != nil {
@@ -181,6 +188,8 @@ type PKI struct {
 	CliWrongEKUEnc             *Leaf
 	RSASig, RSAEnc             *Leaf
 	EdSig                      *Leaf
+	EdEnc                      *Leaf
+	P256Sig, P256Enc           *Leaf // NIST P-256 ECDSA keys (an *ecdsa.PublicKey that is not SM2)
 }
 
 var (
@@ -213,6 +222,9 @@ func GetPKI() *PKI {
 		p.RSASig = ca.Issue(LeafOpt{CN: "rsa-sig", DNS: srvDNS, KeyType: "rsa"})
 		p.RSAEnc = ca.Issue(LeafOpt{CN: "rsa-enc", DNS: srvDNS, KeyType: "rsa", Enc: true})
 		p.EdSig = ca.Issue(LeafOpt{CN: "ed-sig", DNS: srvDNS, KeyType: "ed25519"})
+		p.EdEnc = ca.Issue(LeafOpt{CN: "ed-enc", DNS: srvDNS, KeyType: "ed25519", Enc: true})
+		p.P256Sig = ca.Issue(LeafOpt{CN: "p256-sig", DNS: srvDNS, KeyType: "p256"})
+		p.P256Enc = ca.Issue(LeafOpt{CN: "p256-enc", DNS: srvDNS, KeyType: "p256", Enc: true})
 		pki = p
 	})
 	return pki
